@@ -700,7 +700,7 @@ class Fxp():
             
             try:
                 if isinstance(val, np.float128):
-                    val = np.array(float(val))
+                    val = np.array(val)     # (kept as extended precision, like an array of them: no rounding to a double first)
             except:
                 # by now it is just an extra test, not critical
                 pass
